@@ -12,7 +12,7 @@ pub enum IggyError {
     InvalidIdentifier, InvalidCommand, InvalidNumberEncoding, InvalidUtf8, EmptyMessagePayload, InvalidMessagePayloadLength, Other,
     // (added for unit codec_send: the variants built by the header-map codec and by SendMessages::validate)
     InvalidHeaderKey, InvalidHeaderValue, InvalidMessagesCount, InvalidKeyValueLength, TooBigHeadersPayload, TooBigMessagePayload,
-    QuicError, EmptyResponse,
+    QuicError, EmptyResponse, NotConnected,
 }
 
 // IggyByteSize: a byte count (byte_unit::Byte inside). From<u64> / as_bytes_u64 / as_bytes_usize are mutually inverse
